@@ -79,8 +79,9 @@ theorem optional_conforming_commands :
     fragment, two pass neither `ConformsLists` nor `ConformsOptional` — `NegotiateResponse` writes the two-byte
     terminators of `DomainName` and `ServerName` as literal bytes, of which the encoders over the declared field list
     have no notion (its `Conforms` clauses hold), `WriteRequest` puts its buffer ahead of the parameter
-    block (already in `non_conforming_commands`).  On these the three MS-CIFS encoders are silent and only
-    the differential run speaks.  (`ReadRawRequest` left this list with fixes/C04-readraw-request-offsethigh.diff:
+    block (already in `non_conforming_commands`; proved non-conforming for every field value,
+    `write_request_word_count_counterexample` in Props/C05.lean).  On these the three MS-CIFS encoders are silent; for
+    NegotiateResponse only the differential run speaks.  (`ReadRawRequest` left this list with fixes/C04-readraw-request-offsethigh.diff:
     `OffsetHigh` is emitted iff non-zero now.) -/
 theorem commands_outside_proved_fragments :
     (commands.filter (fun c => (layoutM c.marshal).isNone && !ConformsLists c && !ConformsOptional c)).map
